@@ -922,7 +922,7 @@ def run(ctx):
         traces += flow_a(ctx, objdir, tracedir, "MC_CArith_real_quick.cfg", True, ["x86_64-sysv"])
     else:
         traces += flow_a(ctx, objdir, tracedir, "MC_CArith_real_thorough.cfg", True, ["x86_64-sysv"])
-        traces += flow_a(ctx, objdir, tracedir, "MC_CArith_real_thorough_uchar.cfg", False, ["aarch64", "riscv64"], runtime=False)
+        traces += flow_a(ctx, objdir, tracedir, "MC_CArith_real_quick_uchar.cfg", False, ["aarch64", "riscv64"], runtime=False)
     with Timer(ctx, "flowB"):
         seen, total = collect_events(traces)
         validate_events(ctx, seen, total)
